@@ -153,7 +153,7 @@ Print Assumptions C03_history_nonvacuous.
    remove_child, merge_child_with_parent; every unwrap / assert is the outcome None.  The structural recursions of
    Pwl/CPrune.v (graftp / cprune / compose_prune), about which the theorems above speak, are what this machine computes.
    (names qualified: several modules imported above define cwf / cidx / cheight of their own) *)
-From AT Require ArenaCompose ArenaComposeAbs ACPrune ACPruneOps ACPruneRefine ACPruneAll ACPruneCor.
+From AT Require ArenaCompose ArenaComposeAbs ACPrune ACPruneOps ACPruneRefine ACPruneAll ACPruneCor ACPruneMono.
 
 (* is_edge_feasible computed from the arena = explore on the rows of the spine (the cells the parent pointers lead
    through, root first) followed by the row of the new edge *)
@@ -204,19 +204,19 @@ Theorem C03_arena_compose_prune_refines_index_free_oracle : forall alloc o tol p
     ACPruneRefine.cshape t' (fst (compose_prune o tol t L)) /\ ACPruneAll.cframe t t' /\
     (forall k, In k (ACPruneRefine.cidx t') -> In k (ACPruneRefine.cidx t) \/ aget a k = None).
 Proof. exact ACPruneAll.acompose_prune_refines_index_free_oracle. Qed.
-Theorem C03_arena_compose_prune_refines : forall alloc o tol pf L a t fa,
+(* the same with ONE result for all fuels above the bounds (surplus fuel of either kind is immaterial) *)
+Theorem C03_arena_compose_prune_refines : forall alloc o tol L a t fa,
   ArenaCompose.fresh_alloc alloc -> ACPruneAll.lp_index_free o -> ArenaComposeAbs.karity 2 L -> L <> U ->
   cabs fa a 0%nat = Some t -> ACPruneAll.cparents a None t -> NoDup (ACPruneRefine.cidx t) -> ACPruneAll.cwf t ->
   (forall j, In j (ArenaCompose.terminal_keys a) <-> In j (ACPruneAll.cleaves t)) ->
-  (ACPruneAll.cdepth t + ACPruneRefine.pdepth L < pf)%nat ->
   exists a' t',
-    (forall fuel, (size L < fuel)%nat ->
+    (forall pf fuel, (ACPruneAll.cdepth t + ACPruneRefine.pdepth L < pf)%nat -> (size L < fuel)%nat ->
        ACPrune.acompose_prune alloc o tol pf 0 fuel L a = Some (a', snd (compose_prune o tol t L))) /\
     (forall F, (ACPruneAll.cheight t' <= F)%nat -> cabs F a' 0%nat = Some t') /\
     ACPruneAll.cparents a' None t' /\ NoDup (ACPruneRefine.cidx t') /\
     ACPruneRefine.cshape t' (fst (compose_prune o tol t L)) /\ ACPruneAll.cframe t t' /\
     (forall k, In k (ACPruneRefine.cidx t') -> In k (ACPruneRefine.cidx t) \/ aget a k = None).
-Proof. exact ACPruneAll.acompose_prune_refines_index_free_oracle. Qed.
+Proof. exact ACPruneMono.acompose_prune_refines_any_fuel. Qed.
 
 (* with C03_compose_prune: the tree held by the arena the machine returns evaluates as the composed function, at every x
    the oracle's Infeasible answers and the cached marks treat soundly *)
